@@ -43,10 +43,10 @@ func Parse(img []byte) (*Layout, error) {
 	if len(img) < 64 || img[0] != 'M' || img[1] != 'Z' {
 		return nil, fmt.Errorf("no DOS header")
 	}
-	l := &Layout{Lfanew: int(le.Uint32(img[0x3c:]))}
-	if l.Lfanew < 0 || l.Lfanew+24 > len(img) {
-		return nil, fmt.Errorf("e_lfanew %d outside the file", l.Lfanew)
+	if lf := uint64(le.Uint32(img[0x3c:])); lf+24 > uint64(len(img)) { // (64-bit comparison: int is 32 bits wide in the GOARCH=386 shards)
+		return nil, fmt.Errorf("e_lfanew %d outside the file", lf)
 	}
+	l := &Layout{Lfanew: int(le.Uint32(img[0x3c:]))}
 	if string(img[l.Lfanew:l.Lfanew+4]) != "PE\x00\x00" {
 		return nil, fmt.Errorf("no PE signature at %d", l.Lfanew)
 	}
